@@ -16,7 +16,9 @@ CLAIMED = {
  'C15': dict(text='Tokens.tla decides the timing statement (valid >= 5 min, rejected after 10 min + gap) exhaustively over a half-minute clock; MC_Server_tok explores tokens x senders x rotations; all transitions are replayed on a real node under the virtual clock with real token bytes (own, other IP, other port, other node, bit-flipped, empty), and TLC re-derives the secret epochs from the trace to judge every acceptance/rejection, including the boundary instants 5 min +- 1 ms.',
              ref='DESIGN.md section 5 C15, section 11', technique='TLA+ Tokens + Server modules: exhaustive MC + replay under virtual clock + trace validation'),
 }
-NOTE = {'C03': SERVER_NOTE, 'C04': SERVER_NOTE, 'C15': SERVER_NOTE + ' CRC32C token forgery by linearity is out of scope (design matter).'}
+CLAIMED['C19'] = dict(text='IdMath.tla defines the XOR metric, bucket distance, CRC32C (two 16-bit limbs) / BEP42 and hex parsing; TLC checks the metric laws exhaustively on a small id universe and the BEP42 vectors, then recomputes the library output for every recorded call (161 first-differing-bit classes x fills, character-class mutations of hex strings incl. multi-byte and sign characters, IP classes x r). The thorough tier adds the complete 2^28 masked BEP42 sweep in Rust against the harness reference, which TLC validates against the TLA+ operator.',
+             ref='DESIGN.md section 5 C19', technique='TLA+ IdMath operators as oracle: TLC MC of metric laws + TLC validation of recorded library calls (+ Rust sweep against TLC-validated reference)')
+NOTE = {'C19': 'Trusted base: TLC, CommunityModules Bitwise; the harness char->code point conversion. The 2^28 sweep is a Rust comparison against a reference that TLC validates on sampled vectors, not a TLC verdict.', 'C03': SERVER_NOTE, 'C04': SERVER_NOTE, 'C15': SERVER_NOTE + ' CRC32C token forgery by linearity is out of scope (design matter).'}
 NA_REASON = {}
 
 def main():
